@@ -41,6 +41,10 @@ pub(crate) struct ForkScenario<'a> {
     /// the peer switches to the new branch while the client is down (C08: crash, then restart)
     pub switch_while_down: bool,
     pub filter_batch: u64,
+    /// right before the switch the user adds one more script from block 0 (set_scripts partial):
+    /// filter syncing is rewound to 0 while the other scripts keep their index, and the fork
+    /// arrives before the re-sync has passed the fork point
+    pub rewind_before_switch: bool,
 }
 
 fn trusted_store(sim: &Sim) -> String {
@@ -57,8 +61,15 @@ fn trusted_store(sim: &Sim) -> String {
 impl<'a> ForkScenario<'a> {
     fn switch(&self, sim: &mut Sim) {
         self.switched.set(true);
+        if self.rewind_before_switch {
+            self.rewind(sim);
+        }
         *self.before_switch.borrow_mut() = Some(trusted_store(sim));
         sim.set_view(1, 1, self.new_tip, true);
+    }
+    fn rewind(&self, sim: &mut Sim) {
+        explore::user_set_scripts(sim, 1, &[(self.env.scripts.c.clone(), true, 0)]);
+        sim.pump_out();
     }
 }
 
@@ -86,14 +97,21 @@ impl<'a> Scenario for ForkScenario<'a> {
     }
     fn user_devs(&self, _sim: &Sim) -> Vec<Dev> {
         if self.explore_switch_moment && !self.switched.get() {
-            vec![Dev::Custom(0)]
+            // 0: the peer switches now; 1: the user rewinds filter syncing (one more script from
+            // block 0) and the peer switches in the same moment
+            vec![Dev::Custom(0), Dev::Custom(1)]
         } else {
             vec![]
         }
     }
     fn apply_custom(&self, sim: &mut Sim, dev: &Dev) {
-        if let Dev::Custom(0) = dev {
-            self.switch(sim);
+        match dev {
+            Dev::Custom(0) => self.switch(sim),
+            Dev::Custom(1) => {
+                self.rewind(sim);
+                self.switch(sim);
+            }
+            _ => {}
         }
     }
     fn enable_reorder(&self) -> bool {
@@ -135,6 +153,7 @@ pub(crate) struct Item {
     depth: u64,
     growth: u64,
     set: usize,
+    rewind: bool,
 }
 
 fn chains(env: &Env, item: &Item) -> (Chain, Chain, u64) {
@@ -185,7 +204,12 @@ pub(crate) fn run(opts: &Opts, report: &mut Report) {
             // probability; last-N+6 exercises the sampled path with a lower one)
             for growth in if thorough { (1..=(last_n + 2)).chain([last_n + 6]).collect::<Vec<_>>() } else { vec![1, last_n, last_n + 2, last_n + 6] } {
                 for set in if thorough { vec![0usize, 1, 2, 3] } else { vec![1usize, 3] } {
-                    items.push(Item { last_n, depth, growth, set });
+                    items.push(Item { last_n, depth, growth, set, rewind: false });
+                    // the same with a set_scripts that rewinds filter syncing right before the
+                    // switch after the full sync (shallow forks, one script set; thorough: all)
+                    if depth <= last_n && (thorough || set == 1) {
+                        items.push(Item { last_n, depth, growth, set, rewind: true });
+                    }
                 }
             }
         }
@@ -202,7 +226,7 @@ pub(crate) fn run(opts: &Opts, report: &mut Report) {
             2 => vec![Reg { script: s.b.clone(), is_lock: true, start: 0 }, Reg { script: s.a.clone(), is_lock: true, start: 6 }],
             _ => vec![Reg { script: s.t.clone(), is_lock: false, start: 0 }, Reg { script: s.b.clone(), is_lock: true, start: 0 }],
         };
-        let name = format!("lastN{}/depth{}/growth{}/set{}", item.last_n, item.depth, item.growth, item.set);
+        let name = format!("lastN{}/depth{}/growth{}/set{}{}", item.last_n, item.depth, item.growth, item.set, if item.rewind { "/rewind" } else { "" });
         let sc = ForkScenario {
             env: &env,
             name: name.clone(),
@@ -214,6 +238,7 @@ pub(crate) fn run(opts: &Opts, report: &mut Report) {
             switched: Cell::new(false),
             before_switch: RefCell::new(None),
             explore_switch_moment: true, switch_while_down: false, filter_batch: 6,
+            rewind_before_switch: item.rewind,
         };
         let long_fork = item.depth > item.last_n;
         let mut skipped_banned = 0u64;
@@ -325,13 +350,13 @@ pub(crate) fn run(opts: &Opts, report: &mut Report) {
 
 pub(crate) fn debug_case() {
     let env = Env::dummy();
-    let item = Item { last_n: 2, depth: 1, growth: 4, set: 0 };
+    let item = Item { last_n: 2, depth: 1, growth: 4, set: 0, rewind: false };
     let (old, new, new_tip) = chains(&env, &item);
     let s = &env.scripts;
     let regs = vec![Reg { script: s.a.clone(), is_lock: true, start: 0 }];
     let sc = ForkScenario {
         env: &env, name: "dbg".into(), old, new, regs, cfg: ClientCfg { last_n: 2, cp_interval: 4, ..Default::default() },
-        new_tip, switched: Cell::new(false), before_switch: RefCell::new(None), explore_switch_moment: true, switch_while_down: false, filter_batch: 6,
+        new_tip, switched: Cell::new(false), before_switch: RefCell::new(None), explore_switch_moment: true, switch_while_down: false, filter_batch: 6, rewind_before_switch: false,
     };
     let mut sim = sc.init(None);
     sim.record_trace = true;
@@ -353,7 +378,7 @@ pub(crate) fn debug_case() {
 
 /// The fork scenario for other checks (C08): full sync of the old branch, then the switch.
 pub(crate) fn scenario<'a>(env: &'a Env, last_n: u64, depth: u64, growth: u64, set: usize) -> (ForkScenario<'a>, Vec<Reg>) {
-    let item = Item { last_n, depth, growth, set };
+    let item = Item { last_n, depth, growth, set, rewind: false };
     let (old, new, new_tip) = chains(env, &item);
     let s = &env.scripts;
     let regs: Vec<Reg> = match set {
@@ -373,7 +398,7 @@ pub(crate) fn scenario<'a>(env: &'a Env, last_n: u64, depth: u64, growth: u64, s
             switched: Cell::new(false),
             before_switch: RefCell::new(None),
             explore_switch_moment: false,
-            switch_while_down: false, filter_batch: 6,
+            switch_while_down: false, filter_batch: 6, rewind_before_switch: false,
         },
         regs,
     )
